@@ -1,0 +1,144 @@
+//go:build verif
+
+// Contracts for package numeric (comment-only with the verif tag off; read by /verif/gocv).
+// Integer mode: bv = every Go integer is an exact bit-vector of its width.
+
+package numeric
+
+import "math"
+
+//@ func Float64ToInt64
+//@   props C07 C10 C18
+//@   mode bv
+//@   ensures result == ite(int64(math.Float64bits(f)) < 0, int64(math.Float64bits(f)) ^ 0x7fffffffffffffff, int64(math.Float64bits(f)))
+
+//@ func Int64ToFloat64
+//@   props C07 C10 C18
+//@   mode bv
+//@   ensures math.Float64bits(result) == uint64(ite(i < 0, i ^ 0x7fffffffffffffff, i))
+
+// Spec of the prefix coding: a term of shift s is the byte 0x20+s followed by the
+// n = (63-s)/7+1 seven-bit groups (most significant first) of ((x ^ signbit) >>u s).
+
+//@ spec pcLen(shift uint) int = int((63-shift)/7) + 2
+//@ spec pcSortable(x int64, shift uint) uint64 = (uint64(x) ^ 0x8000000000000000) >> shift
+//@ spec pcByte(x int64, shift uint, k int) byte = byte((pcSortable(x, shift) >> (7 * uint(pcLen(shift)-1-k))) & 0x7f)
+//@ spec isPrefixCoded(p []byte, x int64, shift uint) bool = len(p) == pcLen(shift) && p[0] == 0x20+byte(shift) && forall(k, 1, len(p), p[k] == pcByte(x, shift, k))
+
+//@ func NewPrefixCodedInt64Prealloc
+//@   props C07
+//@   mode bv
+//@   modifies prealloc[*]
+//@   ensures implies(shift > 63, err != nil)
+//@   ensures implies(shift <= 63, err == nil && isPrefixCoded(rv, in, shift))
+//@   ensures implies(shift <= 63 && len(prealloc) >= pcLen(shift), base(rv) == base(prealloc) && base(preallocRest) == base(prealloc) && len(preallocRest) == len(prealloc) - pcLen(shift))
+//@   ensures implies(shift <= 63 && len(prealloc) < pcLen(shift), fresh(rv) && nilp(preallocRest))
+//@   loop 0: invariant nChars <= uint((63-shift)/7) + 1 && shift <= 63 && len(rv) == pcLen(shift) && err == nil
+//@   loop 0: invariant rv[0] == 0x20+byte(shift)
+//@   loop 0: invariant uint64(sortableBits) == pcSortable(in, shift) >> (7 * (uint((63-shift)/7) + 1 - nChars))
+//@   loop 0: invariant forall(k, int(nChars)+1, len(rv), rv[k] == pcByte(in, shift, k))
+//@   loop 0: invariant implies(len(prealloc) >= pcLen(shift), base(rv) == base(prealloc) && base(preallocRest) == base(prealloc) && len(preallocRest) == len(prealloc) - pcLen(shift))
+//@   loop 0: invariant implies(len(prealloc) < pcLen(shift), fresh(rv) && nilp(preallocRest))
+//@   loop 0: decreases int(nChars)
+
+//@ func NewPrefixCodedInt64
+//@   props C07
+//@   mode bv
+//@   ensures implies(shift > 63, result1 != nil)
+//@   ensures implies(shift <= 63, result1 == nil && isPrefixCoded(result0, in, shift) && fresh(result0))
+
+//@ func MustNewPrefixCodedInt64
+//@   props C07
+//@   mode bv
+//@   requires shift <= 63
+//@   ensures isPrefixCoded(result, in, shift) && fresh(result)
+
+//@ func MustNewPrefixCodedInt64Prealloc
+//@   props C07
+//@   mode bv
+//@   requires shift <= 63
+//@   modifies prealloc[*]
+//@   ensures isPrefixCoded(result, in, shift)
+
+//@ func PrefixCoded.Shift
+//@   props C07 C10
+//@   mode bv
+//@   ensures iff(result1 == nil, len(p) > 0 && p[0]-0x20 < 63)
+//@   ensures implies(result1 == nil, result0 == uint(p[0]-0x20))
+//@   ensures implies(result1 != nil, result0 == 0)
+
+// Int64 on a well-formed term of value x and shift s (ghosts) returns x with its low s bits cleared.
+//@ func PrefixCoded.Int64
+//@   props C07 C10
+//@   mode bv
+//@   ghost x int64, s uint
+//@   requires s < 63 && isPrefixCoded(p, x, s)
+//@   ensures result1 == nil && result0 == int64(((uint64(x) ^ 0x8000000000000000) >> s << s) ^ 0x8000000000000000)
+//@   loop 0: unroll 10
+
+//@ func ValidPrefixCodedTermBytes
+//@   props C07 C10
+//@   mode bv
+//@   ensures result0 == (len(p) > 0 && p[0] >= 0x20 && p[0] <= 0x20+63 && len(p) == int((63-uint(p[0]-0x20))/7)+2)
+//@   ensures implies(result0, result1 == int(p[0]-0x20))
+//@   ensures implies(!result0, result1 == 0)
+
+// ---- lemmas: ghost Go functions, verified like any other function (callees by contract) ----
+
+//@ func verifAssert
+//@   mode any
+//@   requires cond
+
+// L1: the float -> int64 map is strictly monotone on non-NaN doubles other than -0.
+//@ func verifLemmaFloatOrder
+//@   props C07
+//@   mode bv
+//@   requires a < b && math.Float64bits(a) != 0x8000000000000000 && math.Float64bits(b) != 0x8000000000000000
+
+// L1': the excluded point, exactly as the property states it: -0 is placed just below +0.
+//@ func verifLemmaNegZero
+//@   props C07
+//@   mode bv
+
+// L2/L3: the two maps are mutually inverse on bit patterns.
+//@ func verifLemmaFloatRoundTrip
+//@   props C07
+//@   mode bv
+//@ func verifLemmaIntRoundTrip
+//@   props C07
+//@   mode bv
+
+// L4: decode(encode(x, s)) == x with the low s bits cleared; == x for s == 0.
+//@ func verifLemmaPrefixRoundTrip
+//@   props C07
+//@   mode bv
+//@   requires s < 63
+
+func verifAssert(cond bool) {}
+
+func verifLemmaFloatOrder(a, b float64) {
+	verifAssert(Float64ToInt64(a) < Float64ToInt64(b))
+}
+
+func verifLemmaNegZero() {
+	verifAssert(Float64ToInt64(math.Copysign(0, -1)) == Float64ToInt64(0)-1)
+}
+
+func verifLemmaFloatRoundTrip(f float64) {
+	verifAssert(math.Float64bits(Int64ToFloat64(Float64ToInt64(f))) == math.Float64bits(f))
+}
+
+func verifLemmaIntRoundTrip(i int64) {
+	verifAssert(Float64ToInt64(Int64ToFloat64(i)) == i)
+}
+
+func verifLemmaPrefixRoundTrip(x int64, s uint) {
+	p, err := NewPrefixCodedInt64(x, s)
+	verifAssert(err == nil)
+	y, err2 := p.Int64()
+	verifAssert(err2 == nil)
+	verifAssert(y == (x>>s)<<s)
+	if s == 0 {
+		verifAssert(y == x)
+	}
+}
